@@ -21,7 +21,7 @@ def run(ctx):
     texts = []
     progs = sqlprog.programs(ctx, 300 if quick else 3000, 'C11_progs', seed=ctx.seed * 3 + 1)
     for p in progs:
-        sp = sqlprog.spell(p, rng, gaps='blank', canonical=True)
+        sp = sqlprog.spell(p, rng, gaps='blank')      # any spelling of every pool serves as the baseline
         if sqlprog.lexes_as_intended(sp):
             texts.append(('plain', sp.text))
     checked_pools()
